@@ -62,6 +62,12 @@ def main(args=None):
     errors = False
     for f in options.file:
         try:
+            if f.closed:
+                # the same stream named twice ("- -"): loading it the
+                # first time has used it up
+                raise ZConfig.ConfigurationError(
+                    "%s has been read already"
+                    % getattr(f, "name", "standard input"))
             ZConfig.loadConfigFile(schema, f)
         except ZConfig.ConfigurationError as e:
             print(str(e), file=sys.stderr)
